@@ -27,6 +27,7 @@
    MIR errors: "E <code> <message>", the slot is abandoned (never finished: state unspecified after an error).
 
    Build script (one directive per line):
+     (item names of the form .lc<N> are obtained from _MIR_get_temp_item_name, as c2m does)
      L <id>                          labtab[id] = MIR_new_label   (creation order = numbering)
      M <name> | m                    new module | finish module
      I|E|W <name>                    import | export | forward
@@ -194,6 +195,19 @@ static MIR_item_t find_item (MIR_module_t m, MIR_context_t ctx, const char *name
   return found;
 }
 
+/* a temporary item name ".lc<N>" is obtained the way c2m obtains it, from _MIR_get_temp_item_name (which advances
+   the module's counter); any other name is used as it is */
+static const char *item_name (MIR_context_t ctx, const char *name) {
+  static char buf[64];
+  if (strncmp (name, ".lc", 3) != 0 || name[3] < '0' || name[3] > '9') return name;
+  for (int guard = 0; guard < 100000; guard++) {
+    _MIR_get_temp_item_name (ctx, cur_module, buf, sizeof (buf));
+    if (strcmp (buf, name) == 0) return buf;
+  }
+  fatal ("temporary name %s cannot be reached", name);
+  return name;
+}
+
 static size_t unhex (const char *hex, uint8_t *out, size_t max) {
   size_t n = 0;
   if (hex[0] == '-' || hex[0] == 0) return 0;
@@ -278,7 +292,7 @@ static void build (MIR_context_t ctx, char *script) {
     char c = line[0];
     if (c == 0) continue;
     for (char *t = strtok_r (line, " ", &s2); t != NULL && nt < 4096; t = strtok_r (NULL, " ", &s2)) tk[nt++] = t;
-#define NAME(i) (strcmp (tk[i], "-") == 0 ? NULL : tk[i])
+#define NAME(i) (strcmp (tk[i], "-") == 0 ? NULL : item_name (ctx, tk[i]))
     switch (c) {
     case 'L': {
       int id = atoi (tk[1]);
@@ -469,7 +483,8 @@ static void pj_op (FILE *o, MIR_context_t ctx, MIR_func_t func, MIR_op_t op) {
 
 static void pj_module (FILE *o, MIR_context_t ctx, MIR_module_t m) {
   int first = 1;
-  fprintf (o, "{\"name\":\"%s\",\"items\":[", nn (m->name));
+  /* tmp: the module's temporary item name counter (public field; ".lc<N>" names are handed out from it) */
+  fprintf (o, "{\"name\":\"%s\",\"tmp\":%u,\"items\":[", nn (m->name), (unsigned) m->last_temp_item_num);
   for (MIR_item_t it = DLIST_HEAD (MIR_item_t, m->items); it != NULL; it = DLIST_NEXT (MIR_item_t, it)) {
     if (!first) fprintf (o, ",");
     first = 0;
